@@ -85,6 +85,10 @@ func (m *Machine) installExterns() {
 			}
 			return v
 		},
+		"vHasParam": func(m *Machine, a []value, site ssa.Instruction) value {
+			_, ok := m.unit.Params[argStr(a[0])]
+			return ok
+		},
 		"vAssume": func(m *Machine, a []value, site ssa.Instruction) value {
 			m.assume(a[0])
 			return nil
